@@ -63,4 +63,8 @@ inductive C02LeftAct where
   | shift              -- the writer section, then `return s.Left()`
   deriving DecidableEq, Repr
 
+/-- the value a signed machine integer of `bits` bits holds after computing `x` (two's complement wrap-around: what Go's
++, -, * and integer conversions do) -/
+def wrapInt (bits : Nat) (x : Int) : Int := (x + 2 ^ (bits - 1)) % 2 ^ bits - 2 ^ (bits - 1)
+
 end Pandora.Go
